@@ -5,13 +5,13 @@ import json
 
 CLAIMED = {
  "C01": dict(engine="e1-stepspace", design="4/C01",
-   text="Exhaustive enumeration of complete initial states of one simulator step (total space for M=3; all forms x all fields x all limit pairs over dense and sparse cores for M in 4..16), each executed through the public API and compared cell-for-cell and queue-for-queue with an independent ICWS'94 reference step.",
+   text="Exhaustive enumeration of complete initial states of one simulator step (total space for M=3; all forms x all fields x all limit pairs over dense cores for M=8 at the last two cells, thorough: M in 4..16 and sparse cores with <=2 non-empty neighbours; large non-power-of-two cores up to 10^6 cells with field products beyond 2^32), each executed through the public API and compared cell-for-cell and queue-for-queue with an independent ICWS'94 reference step; every state is followed by a second step on the same simulator so that state kept between steps is observed.",
    technique="explicit-state enumeration of step states + lock-step reference model comparison"),
  "C11": dict(engine="e1-stepspace", design="4/C11",
-   text="Same exhaustive step spaces as C01 with every (R,W) pair: changed cells within floor(W/2), non-sequential successors within floor(R/2), R=W=M equals the limit-free reference step, and a differential non-interference run in which every cell beyond both distances is replaced.",
+   text="Same exhaustive step spaces as C01 with every (R,W) pair (and large cores with limits below the core size): changed cells within floor(W/2), non-sequential successors within floor(R/2), R=W=M equals the limit-free reference step, and a differential non-interference run in which every cell beyond both distances is replaced.",
    technique="explicit-state enumeration of step states + distance invariants + differential non-interference"),
  "C02": dict(engine="e2-battles", design="4/C02",
-   text="Exhaustive enumeration of battles (1..4 warriors over a 16-instruction scheduling alphabet, every offset, entry point, process limit 1..3, cycle limits) driven cycle by cycle in lock step with an independent reference scheduler (executed tasks, queues, alive flags, counters, whole core after every cycle) and Run() on a fresh simulator compared with the stepped final state.",
+   text="Exhaustive enumeration of battles (1..4 warriors over a 16-instruction scheduling alphabet, every offset, entry point, process limits 1..3 and 5..17, cycle limits; thorough: other core sizes and read/write limits) driven cycle by cycle in lock step with an independent reference scheduler (executed tasks, queues, alive flags, counters, whole core after every cycle), Run() on a fresh simulator compared with the stepped final state, plus long runs (70000 cycles, 70000 processes).",
    technique="explicit-state enumeration of battles + lock-step reference scheduler trace comparison"),
  "C12": dict(engine="e2-battles", design="4/C12",
    text="Every enumerated battle (1..3 warriors, M in {5,8}, limits (M,M) and (3,4)) is re-run at every shift in [0,M) and with offsets spelled off+jM (j in 0..2); results, cycle count, rotated core and rotated queues must equal the unshifted run (differential oracle, no reference model).",
@@ -20,7 +20,7 @@ CLAIMED = {
    text="Invariants (fields and PCs < M, queue <= P, cycles <= limit, living == #alive, alive <=> queue non-empty, no panic) on every successor of the step spaces, after every cycle of every battle of all 7616 one-instruction warriors against 12 hostile programs, and on a boundary product of all seven configuration fields (refused with an error, or supports a hostile battle).",
    technique="explicit-state enumeration with invariant checking in every reached state"),
  "C15": dict(engine="e1-stepspace + e2-battles", design="4/C15",
-   text="A recording listener and the bundled StateRecorder are attached to every step of the step spaces and every cycle of the enumerated battles (including Reset in mid-battle): addresses < M, valid warrior index, task pop announces the queue front before the task runs, changed cells (from core snapshots taken at every pop) are a subset of reported mutations which are a subset of the cells the reference step may touch, terminate reports iff deaths, recorder state equals the last-operation fold of the reference event stream.",
+   text="A recording listener and the bundled StateRecorder are attached to every step of the step spaces and every cycle of the enumerated battles (including Reset in mid-battle, load offsets at and above the core size, and one simulator through 70000 battles separated by Reset): addresses < M, valid warrior index, task pop announces the queue front before the task runs, changed cells (from core snapshots taken at every pop) are a subset of reported mutations which are a subset of the cells the reference step may touch, terminate reports iff deaths, recorder state equals the last-operation fold of the reference event stream.",
    technique="explicit-state enumeration with per-task report-stream oracle against the reference event stream"),
  "C07": dict(engine="e4-asm", design="4/C07",
    text="Grammar-directed exhaustive enumeration of expression trees (all shapes/operators/literals up to 2 operators with every sign run on every operand, bounded sign deviations up to 4 operators, redundant parentheses, spacing, EQU-carried signs) in five contexts (operand, FOR count, ORG, END, ;assert) and four core sizes; every assembled field / accept-reject decision is compared with an exact big-integer evaluation of the tree; predefined constants under six configurations.",
